@@ -18,7 +18,8 @@ EXPLANATION = (
     'the other end; a choice left without options yields marker edges of type INCOMPATIBILITY; constraints are '
     'stored in both directions; (A4) incompatibility scans accept exactly {INCOMPATIBILITY}, the '
     'necessary-deriver search exactly {DERIVES}.  Not decided: the no-over-pruning direction (needs the '
-    'independent enumeration).')
+    'independent enumeration).'
+    ' (A29) no loop of the graph algorithms reads a name that only an earlier, completed loop binds.')
 
 HANDLER_TABLE = {
     'adsg_core.graph.adsg:DSG.initialize_choices':
